@@ -46,9 +46,9 @@ def gen_case(rng, tier, methods=('cycles', 'amp'), centers=('peak', 'trough'), k
         fek = {}
         r = rng.random()
         if r < 0.45:
-            fek['filter_kwargs'] = {'n_cycles': rng.choice([2, 3, 4])}
+            fek['filter_kwargs'] = {'n_cycles': rng.choice([1, 2, 3, 4])}
         elif r < 0.7:
-            fek['filter_kwargs'] = {'n_seconds': round(rng.choice([2.5, 3, 4]) * s['period'] / s['fs'] / 0.7, 6)}
+            fek['filter_kwargs'] = {'n_seconds': round(rng.choice([0.3, 0.45, 0.6, 0.9, 2.5, 3, 4]) * s['period'] / s['fs'] / 0.7, 6)}
         if rng.random() < 0.6:
             fek['boundary'] = rng.choice([0, 1, 5, n // 10])
         if rng.random() < 0.2:
